@@ -53,6 +53,7 @@ enum RetryStrategyStage {
     #[default]
     Init,
     Tag,
+    TagExtant,
     AfterTag,
     InBody,
     Slot(RetryStrategyField),
@@ -173,7 +174,17 @@ impl Recognizer for RetryStrategyRecognizer {
                 }
             }
             RetryStrategyStage::Tag => match input {
-                ReadEvent::Extant => None,
+                ReadEvent::Extant => {
+                    self.stage = RetryStrategyStage::TagExtant;
+                    None
+                }
+                ReadEvent::EndAttribute => {
+                    self.stage = RetryStrategyStage::AfterTag;
+                    None
+                }
+                ow => Some(Err(ow.kind_error(ExpectedEvent::EndOfAttribute))),
+            },
+            RetryStrategyStage::TagExtant => match input {
                 ReadEvent::EndAttribute => {
                     self.stage = RetryStrategyStage::AfterTag;
                     None
@@ -461,6 +472,7 @@ enum DurationStage {
     #[default]
     Init,
     Tag,
+    TagExtant,
     AfterTag,
     InBody,
     Slot(DurationField),
@@ -523,7 +535,17 @@ impl Recognizer for DurationRecognizer {
                 }
             }
             DurationStage::Tag => match input {
-                ReadEvent::Extant => None,
+                ReadEvent::Extant => {
+                    self.stage = DurationStage::TagExtant;
+                    None
+                }
+                ReadEvent::EndAttribute => {
+                    self.stage = DurationStage::AfterTag;
+                    None
+                }
+                ow => Some(Err(ow.kind_error(ExpectedEvent::EndOfAttribute))),
+            },
+            DurationStage::TagExtant => match input {
                 ReadEvent::EndAttribute => {
                     self.stage = DurationStage::AfterTag;
                     None
